@@ -38,8 +38,27 @@ class Buf:
         return Buf(self.lo + lo, self.lo + max(lo, hi))
 
 
+_PYTYPES = {"list": list, "dict": dict, "int": int, "bool": bool, "str": str, "bytes": bytes, "tuple": tuple, "float": float, "set": set,
+            "object": object, "bytearray": bytearray}
+
+
+def _pytype(v):
+    """The Python type of a model value: byte strings known by length are `bytes`; an opaque object has the class given as its
+    `pytype` attribute (a Sym standing for a class, or a Python type) -- without one its type is unknown (checker blind)."""
+    if isinstance(v, Buf):
+        return bytes
+    if isinstance(v, Sym):
+        if "pytype" in v.attrs:
+            return v.attrs["pytype"]
+        raise AnalysisError(f"tiny: type of opaque object {v.name}")
+    return type(v)
+
+
 class Tiny:
-    def __init__(self, env, calls=None, default_call=None):
+    def __init__(self, env, calls=None, default_call=None, model_types=False, opaque_globals=False, inline_self=None):
+        self.inline_self = inline_self  # opt-in: method name -> ast.FunctionDef of a method of the same object, evaluated in place (own locals, shared self)
+        self.opaque_globals = opaque_globals  # opt-in: a dotted global the rule did not bind (module.Class.CONST) is an opaque object
+        self.model_types = model_types  # opt-in: type()/isinstance()/builtin type names answered from the Python type of the model value
         self.env = dict(env)  # text -> value
         self.calls = calls or {}  # text of call -> value
         self.default_call = default_call  # (function text, evaluated args) -> value, for calls not listed in `calls`
@@ -67,18 +86,37 @@ class Tiny:
                     base = None
                 if isinstance(base, Sym) and e.attr in base.attrs:
                     return base.attrs[e.attr]
+            if self.model_types and isinstance(e, ast.Name) and t in _PYTYPES:
+                return _PYTYPES[t]
+            if self.opaque_globals and t:
+                root = t.split(".")[0].split("[")[0].split("(")[0]
+                if root != "self" and root not in self.env and isinstance(e, ast.Attribute):
+                    return Sym(f"<{t}>")
             raise AnalysisError(f"tiny: reads {t}")
         if isinstance(e, ast.Subscript):
             if norm.text(e) in self.env:
                 return self.env[norm.text(e)]
             b = self.ev(e.value)
             if isinstance(b, (list, tuple)) and not isinstance(e.slice, ast.Slice):
-                return b[self.ev(e.slice)]
+                k = self.ev(e.slice)
+                if not isinstance(k, int):
+                    raise TinyRaise("TypeError")
+                try:
+                    return b[k]
+                except IndexError:
+                    raise TinyRaise("IndexError")
             if isinstance(b, dict) and not isinstance(e.slice, ast.Slice):
                 k = self.ev(e.slice)
-                if k not in b:
-                    raise TinyRaise("KeyError")
+                try:
+                    if k not in b:
+                        raise TinyRaise("KeyError")
+                except TypeError:  # unhashable key
+                    raise TinyRaise("TypeError")
                 return b[k]
+            if isinstance(b, (list, tuple)) and isinstance(e.slice, ast.Slice):
+                lo, hi, stp = [None if x is None else self.ev(x) for x in (e.slice.lower, e.slice.upper, e.slice.step)]
+                if all(x is None or (isinstance(x, int) and not isinstance(x, bool)) for x in (lo, hi, stp)) and stp != 0:
+                    return list(b[slice(lo, hi, stp)])
             if isinstance(b, Buf) and isinstance(e.slice, ast.Slice) and e.slice.step is None:
                 lo = self.ev(e.slice.lower) if e.slice.lower is not None else None
                 hi = self.ev(e.slice.upper) if e.slice.upper is not None else None
@@ -107,7 +145,10 @@ class Tiny:
                     a = len(a) if isinstance(a, Buf) else a
                     b = len(b) if isinstance(b, Buf) else b
                 if isinstance(op, (ast.In, ast.NotIn)):
-                    r = (a in b) if isinstance(op, ast.In) else (a not in b)
+                    try:
+                        r = (a in b) if isinstance(op, ast.In) else (a not in b)
+                    except TypeError:  # unhashable key tested against a dict / set
+                        raise TinyRaise("TypeError")
                 elif isinstance(op, (ast.Is, ast.IsNot)):
                     r = (a is b) if isinstance(op, ast.Is) else (a is not b)
                 else:
@@ -181,6 +222,20 @@ class Tiny:
                         return next(it)
                     except StopIteration:
                         raise TinyRaise("StopIteration")
+            if self.model_types and f == "type" and len(e.args) == 1 and not e.keywords and "type" not in self.calls and t not in self.calls:
+                try:
+                    return _pytype(self.ev(e.args[0]))
+                except AnalysisError:
+                    pass  # type of an opaque object: left to the rule's call oracle below
+            if self.model_types and f == "isinstance" and len(e.args) == 2 and not e.keywords and "isinstance" not in self.calls and t not in self.calls:
+                try:
+                    v, T = self.ev(e.args[0]), self.ev(e.args[1])
+                    Ts = tuple(T) if isinstance(T, (list, tuple)) else (T,)
+                    if all(isinstance(x, type) or isinstance(x, Sym) for x in Ts):
+                        tv = _pytype(v)
+                        return any((isinstance(x, type) and isinstance(tv, type) and issubclass(tv, x)) or (x is tv) for x in Ts)
+                except AnalysisError:
+                    pass  # classes / objects outside the model: left to the rule's call oracle below
             if f == "len" and len(e.args) == 1:
                 v = self.ev(e.args[0])
                 if isinstance(v, (Buf, list, dict, tuple, str)):
@@ -216,9 +271,14 @@ class Tiny:
                     args = [self.ev(a) for a in e.args]
                     try:
                         r = getattr(tgt, e.func.attr)(*args)
-                    except (KeyError, ValueError, IndexError) as ex:
+                    except (KeyError, ValueError, IndexError, TypeError) as ex:
                         raise TinyRaise(type(ex).__name__)
                     return list(r) if e.func.attr in ("values", "keys", "items") else r
+            if self.inline_self is not None and isinstance(e.func, ast.Attribute) and isinstance(e.func.value, ast.Name) and e.func.value.id == "self" \
+                    and t not in self.calls and f not in self.calls:
+                node = self.inline_self(e.func.attr)
+                if node is not None and not any(isinstance(a, ast.Starred) for a in e.args) and not any(k.arg is None for k in e.keywords):
+                    return self._call_inline(node, [self.ev(a) for a in e.args], {k.arg: self.ev(k.value) for k in e.keywords})
             if t in self.calls:
                 return self.calls[t]
             if f in self.calls:
@@ -261,6 +321,45 @@ class Tiny:
                     return self.default_call(f, args)
             raise AnalysisError(f"tiny: call {t[:60]}")
         raise AnalysisError(f"tiny: expression {ast.unparse(e)[:60]}")
+
+    def _call_inline(self, node, args, kwargs):
+        """Evaluate a method of the same object: fresh locals, the `self...` part of the environment is shared (stores persist)."""
+        depth = getattr(self, "_depth", 0)
+        if depth > 8:
+            raise AnalysisError("tiny: inlining too deep")
+        a = node.args
+        names = [x.arg for x in a.posonlyargs + a.args]
+        if not names or a.vararg or a.kwarg:
+            raise AnalysisError(f"tiny: cannot inline {node.name}")
+        env = {k: v for k, v in self.env.items() if k == "self" or k.startswith("self.") or k.startswith("self[")}
+        params = names[1:]
+        if len(args) > len(params):
+            raise TinyRaise("TypeError")
+        for n_, v in zip(params, args):
+            env[n_] = v
+        for k, v in kwargs.items():
+            if k not in params or k in params[:len(args)]:
+                raise TinyRaise("TypeError")
+            env[k] = v
+        defaults = dict(zip(names[len(names) - len(a.defaults):], a.defaults))
+        for n_ in params:
+            if n_ not in env:
+                if n_ not in defaults:
+                    raise TinyRaise("TypeError")
+                env[n_] = self.ev(defaults[n_])
+        for k, v in self.env.items():  # dotted globals the rule bound (module.CONST) stay visible
+            if "." in k and not k.startswith("self") and k.split(".")[0] not in env:
+                env.setdefault(k, v)
+        sub = Tiny(env, calls=self.calls, default_call=self.default_call, model_types=self.model_types, opaque_globals=self.opaque_globals, inline_self=self.inline_self)
+        sub._depth = depth + 1
+        sub.trace = self.trace
+        r = sub.run([x for x in node.body if not (isinstance(x, ast.Expr) and isinstance(x.value, ast.Constant))])
+        for k, v in sub.env.items():
+            if k == "self" or k.startswith("self.") or k.startswith("self["):
+                self.env[k] = v
+        if r[0] == "raise":
+            raise TinyRaise(r[1])
+        return r[1] if r[0] == "return" else None
 
     def _comp(self, e):
         g = e.generators[0]
